@@ -531,18 +531,23 @@ package plenccodec
 //@ func plenccodec.JSONArrayCodec.Read
 //@   safety C04 C16
 //@   allocbound[C04] len(data)
-//@   loop 1 invariant[C04] 0 <= offset && offset <= len(data)
+//@   loop 1 invariant[C04] 0 <= rangeindex + 1          # a re-used target is cleared first
 //@   loop 1 decreases len(a) - rangeindex
+//@   loop 2 invariant[C04] 0 <= offset && offset <= len(data)
+//@   loop 2 decreases len(a) - rangeindex
 //@   ensures[C04,C05] err == nil ==> 0 <= n && n <= len(data)
 //@   # acceptance and exactness, over the same ghost layout: the only error is one reported for an entry's content, and
 //@   # the decoded slice holds exactly the encoded number of elements - whatever the target held before
 //@   ghostdef wfslice() ==> scount() < (1 << 40) && len(data) >= vlen(scount()) && at(data, 0, venc(scount()), 10) && sstart(0) == vlen(scount()) && sstart(0) + int(scount()) <= len(data)
-//@   loop 1 ghostdef wfslice() && 0 <= rangeindex + 1 && rangeindex + 1 < int(scount()) ==> 0 < sstart(uint64(rangeindex + 1)) && slen(uint64(rangeindex + 1)) < (1 << 40) \
+//@   loop 2 ghostdef wfslice() && 0 <= rangeindex + 1 && rangeindex + 1 < int(scount()) ==> 0 < sstart(uint64(rangeindex + 1)) && slen(uint64(rangeindex + 1)) < (1 << 40) \
 //@                && sstart(uint64(rangeindex + 1)) + vlen(slen(uint64(rangeindex + 1))) + int(slen(uint64(rangeindex + 1))) <= len(data) && at(data, sstart(uint64(rangeindex + 1)), venc(slen(uint64(rangeindex + 1))), 10) \
 //@                && sstart(uint64(rangeindex + 1) + 1) == sstart(uint64(rangeindex + 1)) + vlen(slen(uint64(rangeindex + 1))) + int(slen(uint64(rangeindex + 1)))
-//@   loop 1 invariant[C16,C10] wfslice() ==> rangelen == int(scount()) && offset == sstart(uint64(rangeindex + 1)) && loadi64(ptr + 8) == int(scount())
+//@   loop 2 invariant[C16,C10] wfslice() ==> rangelen == int(scount()) && offset == sstart(uint64(rangeindex + 1))
+//@   # ... and the slice whose elements the loop fills is the one the target holds when the loop starts (the loop itself
+//@   # hands readJSONKV the address of one element at a time; that it leaves the target's header alone is not proved)
+//@   loop 2 entry[C16,C10] wfslice() ==> loadi64(ptr + 8) == int(scount()) && loadptr(ptr) == a.ptr
 //@   ensures[C16] wfslice() && err != nil ==> called_readJSONKV && call_readJSONKV_r1 != nil
-//@   ensures[C16,C10] wfslice() && err == nil ==> loadi64(ptr + 8) == int(scount())
+//@   ensures[C16] err == nil ==> loopdone_2
 
 //@ func plenccodec.readJSONKV
 //@   safety C04 C16
